@@ -78,9 +78,11 @@ def run(chk: Check, model):
         body = l.env_out[nm]
         it = l.iter
         # the number of Dense layers: the count of parameter groups named Dense* (a sum over the actor's keys); the loop runs over one less
-        sums = [x for x in T.walk(it) if x[0] == "call" and x[1] == "sum" and any(y == T.mk_index(S("self.model"), T.const("actor")) for y in T.walk(x))]
+        # (counted as sum(<key test> for k in actor) or as len([k for k in actor if <key test>]): the same number)
+        sums = [x for x in T.walk(it) if x[0] == "call" and x[1] in ("sum", "len") and len(x[2]) == 1 and x[2][0][0] == "comp"
+                and any(y == T.mk_index(S("self.model"), T.const("actor")) for y in T.walk(x))]
         n_layers = sums[0] if len(sums) == 1 else T.NONE
-        ok = it[0] == "call" and it[1] == "range" and len(it[2]) == 1 and T.sub(n_layers, it[2][0]) == T.ONE and n_layers[0] == "call" and n_layers[1] == "sum"
+        ok = it[0] == "call" and it[1] == "range" and len(it[2]) == 1 and T.sub(n_layers, it[2][0]) == T.ONE and n_layers[0] == "call" and n_layers[1] in ("sum", "len")
         chk.add("C20.layers", "Policy: all Dense layers but the last are hidden layers", ok and l.pre.get(nm) == S("norm_obs"), f"hidden loop runs over {T.show(it)[:120]} with num_layers = {T.show(n_layers)[:60]}, starting from {T.show(l.pre.get(nm, T.NONE))[:40]}", chk.loc(f_p))
         elem = ("elem", it, l.uid)
         ok = body[0] == "call" and isinstance(body[1], tuple) and body[1][0] == "index" and body[1][2] == S("self.hidden_activation") and len(body[2]) == 1
